@@ -712,6 +712,10 @@ class Context:
 
     def box_axioms(self):
         A = [z3.Not(self.obj_truthy(self.NONE_OBJ))]
+        bi = z3.Int('bi')
+        A.append(z3.ForAll([bi], z3.And(self.uf('obj_int', T.Obj, T.I)(self.uf('box_int', T.I, T.Obj)(bi)) == bi,
+                                        self.uf('box_int', T.I, T.Obj)(bi) != self.NONE_OBJ),
+                           patterns=[self.uf('box_int', T.I, T.Obj)(bi)]))
         for n in (2, 3):
             xs = [z3.Const('bx%d' % i, T.Obj) for i in range(n)]
             t = self.tup_fn(n)(*xs)
@@ -1246,6 +1250,9 @@ class Context:
             return evs[k].args[j]
         if fn == 'attr':
             node_v = I.unwrap(I.ev(node.args[0], frame))
+            if isinstance(node_v, VNone):
+                self.qcount += 1      # attr of None under a guard that excludes it: unconstrained
+                return VOpt(z3.Const('undef-attr!%d' % self.qcount, T.B), VSeq(z3.Const('undef-attrv!%d' % self.qcount, S.sort), 'str'))
             attrs = I.unwrap(I.getattr(node_v, 'attributes', node))
             if isinstance(node_v, VOpaque) and node_v.label == 'missing':
                 self.qcount += 1
